@@ -34,11 +34,11 @@ def bounds(tier):
 
 
 def _calc_lens(tier):
-    return [0, 1, 2, 3] if tier == "quick" else list(range(0, 13))
+    return [0, 1, 2, 3, 4, 6, 8] if tier == "quick" else list(range(0, 25)) + [32]
 
 
 def _rx_payloads(tier):
-    return [0, 2] if tier == "quick" else [0, 1, 2, 4, 6]
+    return [0, 2] if tier == "quick" else [0, 1, 2, 4, 8, 12]
 
 
 def instances(tier):
@@ -46,7 +46,7 @@ def instances(tier):
     for L in _calc_lens(tier):
         out.append({"kind": "calc", "len": L})
     out.append({"kind": "inj2"})
-    for L in ([0, 2] if tier == "quick" else [0, 1, 2, 3, 6]):
+    for L in ([0, 2, 6] if tier == "quick" else [0, 1, 2, 3, 6, 12, 20]):
         out.append({"kind": "validate", "len": L})
     out.append({"kind": "validate_badlen"})
     for g in (4, 5):
